@@ -13,6 +13,24 @@ type Option struct {
 	Assignments []Assignment   `yaml:"assignments"`
 }
 
+// Validate checks every type described by the option: its arguments and the
+// arguments declared by its assignments, envelopes included.
+func (opt Option) Validate() error {
+	for _, arg := range opt.Arguments {
+		if err := arg.Type.Validate(); err != nil {
+			return fmt.Errorf("argument '%s': %w", arg.Name, err)
+		}
+	}
+
+	for _, assignment := range opt.Assignments {
+		if err := assignment.Value.Validate(); err != nil {
+			return fmt.Errorf("assignment to '%s': %w", assignment.Path, err)
+		}
+	}
+
+	return nil
+}
+
 func (opt Option) AsIR(schemas ast.Schemas, builders ast.Builders, root ast.Builder) (ast.Option, error) {
 	assignments := make([]ast.Assignment, 0, len(opt.Assignments))
 	for _, assignment := range opt.Assignments {
@@ -60,6 +78,24 @@ type AssignmentValue struct {
 	Argument *ast.Argument       `json:",omitempty"`
 	Constant any                 `json:",omitempty"`
 	Envelope *AssignmentEnvelope `json:",omitempty"`
+}
+
+func (value AssignmentValue) Validate() error {
+	if value.Argument != nil {
+		if err := value.Argument.Type.Validate(); err != nil {
+			return fmt.Errorf("argument '%s': %w", value.Argument.Name, err)
+		}
+	}
+
+	if value.Envelope != nil {
+		for _, envelopeValue := range value.Envelope.Values {
+			if err := envelopeValue.Value.Validate(); err != nil {
+				return err
+			}
+		}
+	}
+
+	return nil
 }
 
 func (value AssignmentValue) AsIR(schemas ast.Schemas, assignmentPath ast.Path) (ast.AssignmentValue, error) {
